@@ -109,6 +109,27 @@ def h_node_init : Nat := 0x01461d709eb184c3
 /-- hash of the normalised skeleton of IsRunning (internal/dag/scheduler/graph.go) -/
 def h_graph_IsRunning : Nat := 0x7ff8cd9864f9fa04
 
+/-- hash of the normalised skeleton of * (internal/dag/scheduler/scheduler.go) -/
+def h_rest_sched_dag_scheduler_scheduler_go : Nat := 0xa0151aae56bcad6b
+
+/-- hash of the normalised skeleton of * (internal/dag/scheduler/node.go) -/
+def h_rest_sched_dag_scheduler_node_go : Nat := 0x6b43ae1d1a44c105
+
+/-- hash of the normalised skeleton of * (internal/dag/scheduler/graph.go) -/
+def h_rest_sched_dag_scheduler_graph_go : Nat := 0xf45e0f2994ddccec
+
+/-- hash of the normalised skeleton of * (internal/dag/condition.go) -/
+def h_rest_sched_dag_condition_go : Nat := 0x08d42a7ecec719d6
+
+/-- hash of the normalised skeleton of * (internal/patternutil/patternutil.go) -/
+def h_rest_sched_patternutil_patternutil_go : Nat := 0x3daef2ecd52f8982
+
+/-- hash of the normalised skeleton of * (internal/dag/executor/executor.go) -/
+def h_rest_sched_dag_executor_executor_go : Nat := 0xff3866fd225f7261
+
+/-- hash of the normalised skeleton of * (internal/dag/executor/command.go) -/
+def h_rest_sched_dag_executor_command_go : Nat := 0x137f6e1407c694ea
+
 def dryGuards : List String := ["setupNode: if !sc.dry { return node.setup(sc.logDir, sc.requestID) }; return nil", "teardownNode: if !sc.dry { return node.teardown() }; return nil", "execNode: if !sc.dry { return n.Execute(ctx) }; return nil"]
 
 def errSwitch : List (List String) := [
